@@ -2,6 +2,7 @@ package kit
 
 import (
 	"fmt"
+	"runtime/debug"
 	"testing"
 	"testing/synctest"
 )
@@ -31,7 +32,15 @@ func Bubble(f func()) (err error) {
 				// panics of f (abortRun, genuine panics) must travel to Execute, not kill
 				// the test goroutine: carry them out of the bubble.
 				if v := recover(); v != nil {
-					inner = v
+					if _, ok := v.(abortRun); ok {
+						inner = v
+					} else if bp, ok := v.(*BubblePanic); ok {
+						inner = bp
+					} else {
+						// keep the stack of the panicking goroutine: Execute classifies
+						// panics by their first non-runtime frame
+						inner = &BubblePanic{Val: v, Stack: string(debug.Stack())}
+					}
 				}
 			}()
 			f()
@@ -42,6 +51,14 @@ func Bubble(f func()) (err error) {
 	}
 	return err
 }
+
+// BubblePanic carries a panic (and the stack it happened on) out of a bubble.
+type BubblePanic struct {
+	Val   interface{}
+	Stack string
+}
+
+func (b *BubblePanic) String() string { return fmt.Sprint(b.Val) }
 
 // Wait blocks until every other goroutine in the current bubble is durably blocked.
 func Wait() { synctest.Wait() }
